@@ -3,6 +3,7 @@ package wire
 import (
 	"bytes"
 	"fmt"
+	"time"
 
 	"github.com/ontio/ontology-crypto/keypair"
 	"github.com/polynetwork/poly/common"
@@ -42,10 +43,11 @@ func init() {
 		Real:        []string{"core/types Transaction/Sig/Header/Block (Serialization, Deserialization, Serialize/Deserialize, Hash, ToArray)", "core/payload.InvokeCode", "p2pserver/message/types WriteMessage/ReadMessage with Trn/Block/BlkHeader", "core/signature Sign/Verify (re-sealing)", "ontology-crypto key (de)serialisation"},
 		Stub:        []string{"byte stream (simulated reader)", "block store / disk seam is exercised by E1, not here"},
 		Assumptions: []string{"signature bytes are random byte strings except in the re-sealing steps (ECDSA signatures there are randomised and never enter the trace)", "counts in (2^16, 2^46) that reach an unguarded make() are not executed (would abort the process: runtime out of memory); the engine's reference walker filters them and counts them as dangerous_count_not_executed", "for damaged input the property promises only 'never panics'; accepted damaged inputs are additionally checked for internal consistency (hash/Raw agree with the delivered bytes, re-encode/decode is idempotent)"},
-		QuickRuns:   1600, ThoroughRuns: 100000, QuickCap: 60, ThoroughCap: 800,
+		QuickRuns:   500, ThoroughRuns: 40000, QuickCap: 60, ThoroughCap: 800,
 		RequiredProbes: []string{"tx_many_sigs", "tx_multisig_entry", "hdr_no_bookkeepers", "resealed_other_subset", "duplicate_tx_equal_root_shape", "oversize_tx", "truncation", "corrupted_count", "bit_flip", "frame_roundtrip"},
 		Generate:       genC02,
 		Execute:        execC02,
+		NoMinimise:     noMin,
 	})
 }
 
@@ -247,16 +249,19 @@ func (c *c02ctx) damage(kind string, mode int, ref []byte, rng *kernel.RNG, deco
 	switch mode {
 	case c02TruncAll:
 		var pts []int
-		if len(ref) <= 900 {
+		if len(ref) <= 220 {
 			for t := 0; t < len(ref); t++ {
 				pts = append(pts, t)
 			}
-		} else {
-			for j := 0; j < 400; j++ {
-				pts = append(pts, rng.Intn(len(ref)))
+		} else { // public-key decompression makes every accepted prefix expensive: head, tail and a sample
+			for t := 0; t < 110; t++ {
+				pts = append(pts, t)
 			}
-			for t := 0; t < 300 && t < len(ref); t++ {
-				pts = append(pts, t, len(ref)-1-t)
+			for t := 1; t <= 40; t++ {
+				pts = append(pts, len(ref)-t)
+			}
+			for j := 0; j < 70; j++ {
+				pts = append(pts, rng.Intn(len(ref)))
 			}
 		}
 		for _, t := range pts {
@@ -264,7 +269,7 @@ func (c *c02ctx) damage(kind string, mode int, ref []byte, rng *kernel.RNG, deco
 			decode(fmt.Sprintf("%s truncated@%d/%d", kind, t, len(ref)), ref[:t])
 		}
 	case c02BitFlips:
-		n := 48
+		n := 32
 		for j := 0; j < n && len(ref) > 0; j++ {
 			d := copyB(ref)
 			nf := 1 + rng.Intn(2)
@@ -300,6 +305,7 @@ func execC02(run *kernel.Run) {
 	for i, st := range run.Plan.Steps {
 		run.StepNo = i
 		run.Steps++
+		t0 := time.Now()
 		salt := uint64(st.Arg(0))
 		rng := kernel.NewRNG(kernel.Derive(run.Plan.Seed, "c02", salt))
 		mode := amod(st.Arg(1), c02NumModes)
@@ -401,6 +407,7 @@ func execC02(run *kernel.Run) {
 			rich = true
 			c.frames(rng, magic, k, salt, mode)
 		}
+		globalTimer.add(st.Op+"/"+c02ModeNames[mode], t0)
 		outcome := fmt.Sprintf("%s mode=%s evals=%d rejected=%d accepted=%d", shape, c02ModeNames[mode], c.evals-ev0, c.rejected-rej0, c.accepted-acc0)
 		run.Logf("step %d %s: %s", i, st.Op, outcome)
 		run.State([]byte(outcome))
@@ -416,6 +423,7 @@ func execC02(run *kernel.Run) {
 	}
 	run.Probes["__evals"] = c.evals
 	run.Sample = sample
+	globalTimer.report("C02")
 }
 
 func (c *c02ctx) roundTripTx(m *txM, ref []byte, ulen int, rng *kernel.RNG) bool {
